@@ -139,6 +139,9 @@ func zzSvc(name, ip string) (*api.Service, *api.Endpoints) {
 
 var zzHosts = []string{"h1.local", "h2.local"}
 var zzSvcs = []string{"s1", "s2"}
+
+// hosts of a tls entry: one host, or (TLSHOSTS=4) both hosts in either order
+var zzTLSHosts = [][]string{{"h1.local"}, {"h2.local"}, {"h1.local", "h2.local"}, {"h2.local", "h1.local"}}
 var zzSecrets = []string{"t1", "missing", "t2"}
 
 // zzIngress builds an Ingress from solver-chosen parts: 0..1 rule (host, service) and 0..1 tls
@@ -173,7 +176,7 @@ func zzIngress(name string, created int64, prefix string) *networking.Ingress {
 	}
 	if nd.Param("TLS", 1) == 1 && nd.Bool(prefix+".tls") {
 		ing.Spec.TLS = []networking.IngressTLS{{
-			Hosts:      []string{zzHosts[nd.Choice(prefix+".tlshost", len(zzHosts))]},
+			Hosts:      zzTLSHosts[nd.Choice(prefix+".tlshost", nd.Param("TLSHOSTS", 2))],
 			SecretName: zzSecrets[nd.Choice(prefix+".secret", nd.Param("SECRETS", len(zzSecrets)))],
 		}}
 	}
